@@ -560,8 +560,8 @@ class CsTranslator(MethodTranslator):
                 lst = self.expr(f.value, env)
                 i, x = self.expr(args[0], env), self.expr(args[1], env)
                 env.stored(lst)
-                for k_, v_ in list(env.m.items()):          # any alias that reads the list at all is stale now
-                    if v_ != ('var', k_) and any(y == lst for y in subexprs(v_)):
+                for k_, v_ in list(env.m.items()):          # an alias of an element of the list is stale now (the list itself is not)
+                    if v_ != ('var', k_) and v_ != lst and any(y == lst for y in subexprs(v_)):
                         env.m[k_] = ('unsupported', 'stale alias ' + k_)
                 return ('insert', lst, i, x, nxt(env))
             if f.attr == 'append' and len(args) == 1 and isinstance(f.value, ast.Name) \
